@@ -337,4 +337,31 @@ example : ∀ i, Walked (sepNodes .str) 0 none i → sepTerm (sepNodes .str) i =
   have hall : (clearedBy (sepNodes .str) 0 none).all (sepTerm (sepNodes .str)) = true := by decide +kernel
   exact List.all_eq_true.mp hall i h
 
+/-! ## what a load reads of the metamodel-creation history -/
+
+/-- **Frame of the creation state.**  For every variant of the machine, every state (at rest or not) and
+every load: replacing the grammar-parser cache `textX_parsers` by anything and the owner of the shared
+base-type rules by any other owner changes neither the outcome nor the rest of the surviving state — the
+load commutes with the replacement.  (Of `baseOwner` only "is there an owner" is read:
+`process_node` looks at the rule *type* of the owner's class, which is the same for every owner.) -/
+theorem C16_creation_frame (v : Variant) (W : World) (sem : Sem) (k : Nat) (files : List Inp) (H : Hidden)
+    (gp : List (Bool × Bool)) (bo : Option Nat) (h : bo.isSome = H.baseOwner.isSome) :
+    load v W sem k files { H with gp := gp, baseOwner := bo } =
+      ((load v W sem k files H).1, { (load v W sem k files H).2 with gp := gp, baseOwner := bo }) :=
+  load_sw v W sem k files H gp bo h
+
+/-- a semantics that shows what it read of the base-type back-pointer -/
+def ownerSem : Sem :=
+  { file := fun _ _ => { ok := true, dump := 0, allocs := 0, stack := [], instances := [], crossrefs := [] },
+    final := fun _ rs _ => (.ok, (rs.map (fun r => if r.baseIsMatch then 1 else 0)).sum) }
+
+/-- non-vacuity of `C16_creation_frame`: another owner and another parser cache, same outcome; and the
+hypothesis is needed — without any owner the read differs -/
+example :
+    let H := create (wWorld false) 0 empty
+    (load real (wWorld false) ownerSem 0 [inA] { H with gp := [(true, true)], baseOwner := some 7 }).1.dump = 1 ∧
+    (load real (wWorld false) ownerSem 0 [inA] H).1.dump = 1 ∧
+    (load real (wWorld false) ownerSem 0 [inA] { H with baseOwner := none }).1.dump = 0 := by
+  decide +kernel
+
 end History
